@@ -2,8 +2,12 @@ package rules
 
 import (
 	"fmt"
+	"go/ast"
+	"go/constant"
 	"regexp"
 	"strings"
+
+	"golang.org/x/tools/go/packages"
 
 	"pigeonverif/internal/load"
 )
@@ -133,12 +137,13 @@ func writeFuncSemantics(c *Ctx) (probs map[string][]string) {
 		return
 	}
 	b := recvName(fd)
-	ps := paramNames(fd)
-	if len(ps) != 4 {
-		probs["lists"] = []string{"unexpected parameters"}
+	ro := c.writeFuncRoles()
+	if ro.Why != "" {
+		probs["lists"] = []string{ro.Why}
+		probs["pair"] = []string{ro.Why}
 		return
 	}
-	funcIx, code, callTpl, funcTpl := ps[0], ps[1], ps[2], ps[3]
+	funcIx, code, callTpl, funcTpl := ro.Names[ro.Ix], ro.Names[ro.Code], ro.Names[ro.Call], ro.Names[ro.Def]
 	add := func(k, s string) { probs[k] = append(probs[k], s) }
 	top := b + ".argsStack[len(" + b + ".argsStack)-1]"
 	paths := c.builderNorm().normPaths(fd)
@@ -184,7 +189,11 @@ func writeFuncSemantics(c *Ctx) (probs map[string][]string) {
 		if !dp.OK || !da.OK {
 			continue
 		}
-		okList := func(l string) bool { return l == top || dollarRe.FindString(l) == l || l == "" }
+		stack := b + ".argsStack"
+		noScope := p.holds("len("+stack+")==0") || p.holds("len("+stack+")<1") || p.holds("len("+stack+")<=0") || p.holds("len("+stack+")-1<0")
+		okList := func(l string) bool {
+			return l == top || dollarRe.FindString(l) == l || l == "" || (l == "nil" && noScope)
+		}
 		if !okList(dp.List) || !okList(da.List) || (dp.List == top) != (da.List == top) {
 			add("same-list", "parameter list ranges over "+dp.List+", argument list over "+da.List+", expected the innermost label scope "+top+" for both")
 		}
@@ -256,4 +265,137 @@ func contradictoryFacts(p bpath) bool {
 		}
 	}
 	return false
+}
+
+// wfRoles: which parameter of builder.writeFunc plays which role, read from the signature and from how the two
+// format parameters are used (the definition template is written with four operands, the call stub with two).
+type wfRoles struct {
+	Ix, Code, Def, Call int // parameter positions
+	Names               []string
+	Why                 string // non-empty: the roles could not be read
+}
+
+func (c *Ctx) writeFuncRoles() wfRoles {
+	g := c.G()
+	ro := wfRoles{Ix: -1, Code: -1, Def: -1, Call: -1}
+	fd := load.FuncDecl(g.Pkg("builder"), "builder", "writeFunc")
+	if fd == nil {
+		ro.Why = "builder.writeFunc not found"
+		return ro
+	}
+	b := recvName(fd)
+	var strs []int
+	i := 0
+	for _, f := range fd.Type.Params.List {
+		for _, nm := range f.Names {
+			ro.Names = append(ro.Names, nm.Name)
+			switch nospaceLit(f.Type) {
+			case "int":
+				ro.Ix = i
+			case "*ast.CodeBlock":
+				ro.Code = i
+			case "string":
+				strs = append(strs, i)
+			}
+			i++
+		}
+	}
+	if ro.Ix < 0 || ro.Code < 0 || len(strs) != 2 || len(ro.Names) != 4 {
+		ro.Why = "writeFunc does not take a method index, a code block and two templates"
+		return ro
+	}
+	for _, p := range c.builderNorm().normPaths(fd) {
+		for _, e := range p {
+			if e.Kind != "call" {
+				continue
+			}
+			for _, si := range strs {
+				if strings.HasPrefix(e.Text, b+".writelnf("+ro.Names[si]+",") {
+					n := len(splitTop(strings.TrimSuffix(strings.TrimPrefix(e.Text, b+".writelnf("), ")"), ","))
+					switch n {
+					case 5:
+						ro.Def = si
+					case 3:
+						ro.Call = si
+					}
+				}
+			}
+		}
+	}
+	if ro.Def < 0 || ro.Call < 0 || ro.Def == ro.Call {
+		ro.Why = "writeFunc does not write one of its templates with four operands (the definition) and the other with two (the call stub)"
+	}
+	return ro
+}
+
+// templateShape classifies a package-level format string of the builder: "def" (receiver, name, parameters, body),
+// "call" (name, arguments) or "", and gives the result type the emitted method declares.
+func (c *Ctx) templateShape(name string) (shape, result string) {
+	g := c.G()
+	bp := g.Pkg("builder")
+	v, ok := pkgStringVar(bp, name)
+	if !ok {
+		return "", ""
+	}
+	fits := func(n int) bool {
+		args := make([]any, n)
+		for i := range args {
+			args[i] = "x"
+		}
+		return !strings.Contains(fmt.Sprintf(v, args...), "%!")
+	}
+	switch {
+	case fits(4) && !fits(3):
+		shape = "def"
+	case fits(2) && !fits(1):
+		shape = "call"
+	}
+	first := v
+	if i := strings.Index(v, "{"); i >= 0 {
+		first = v[:i]
+	}
+	if i := strings.LastIndex(first, ")"); i >= 0 {
+		// text after the parameter list: either "(T, U)" (ends in ")") or a bare type
+		first = strings.TrimSpace(first)
+		if strings.HasSuffix(first, ")") {
+			j := strings.LastIndex(first, "(")
+			result = first[j:]
+		} else {
+			result = strings.TrimSpace(first[i+1:])
+		}
+	}
+	result = strings.ReplaceAll(result, " ", "")
+	if strings.HasPrefix(result, "(") && !strings.Contains(result, ",") {
+		result = strings.Trim(result, "()")
+	}
+	return shape, result
+}
+
+// pkgStringVar gives the constant initial value of a package-level string variable or constant.
+func pkgStringVar(p *packages.Package, name string) (string, bool) {
+	if p == nil {
+		return "", false
+	}
+	for _, f := range p.Syntax {
+		for _, d := range f.Decls {
+			gd, ok := d.(*ast.GenDecl)
+			if !ok {
+				continue
+			}
+			for _, sp := range gd.Specs {
+				vs, ok := sp.(*ast.ValueSpec)
+				if !ok {
+					continue
+				}
+				for i, n := range vs.Names {
+					if n.Name == name && i < len(vs.Values) {
+						if tv, ok := p.TypesInfo.Types[vs.Values[i]]; ok && tv.Value != nil && tv.Value.Kind() == constant.String {
+							return constant.StringVal(tv.Value), true
+						}
+					}
+				}
+			}
+		}
+	}
+	return "", false
 }
